@@ -52,6 +52,7 @@
 #include "common.h"
 #include <cstring>
 #include <new>
+#include <typeinfo>
 
 // ---- stubs
 // per-header statistics histograms (StatHist.cc, floating point log histograms, is not linked)
@@ -173,10 +174,16 @@ __attribute__((optnone, noinline)) static void reachIf(const bool c, const char 
 
 // ---- the request object
 template <class T> static inline T *rawObject() { return static_cast<T *>(xcalloc(1, sizeof(T))); }
+// the real vtable of HttpRequest (defined by src/HttpRequest.cc): a raw object gets its vptr set so that the virtual calls made by
+// Http::Message::parseHeader() (configureContentLengthInterpreter(), hdrCacheInit()) dispatch as they do on a constructed object
+extern void *HttpRequestVtable[] __asm__("_ZTV11HttpRequest");
 
 static inline HttpRequest *rawRequest(const Http::MethodType m)
 {
     HttpRequest *r = rawObject<HttpRequest>();
+    unsigned ti = 0;                                         // Itanium ABI: the vptr points just past the typeinfo slot
+    while (HttpRequestVtable[ti] != (void *)&typeid(HttpRequest)) { ++ti; vf_assert(ti < 8, "harness: typeinfo slot of the HttpRequest vtable found"); }
+    *reinterpret_cast<void ***>(r) = &HttpRequestVtable[ti + 1];
     new (&r->header) HttpHeader(hoRequest);
     new (&r->method) HttpRequestMethod(m);
     r->http_ver = Http::ProtocolVersion(1, 1);
